@@ -1,8 +1,10 @@
 (* C14 -- The Arrow struct array has the per-version schema and converts back losslessly.
    data_type / into_struct_array / from_struct_array of the generated structs are regenerated into tables. *)
 From Coq Require Import List NArith Bool String.
-From Peppi Require Import Layout.Syntax Gen.Funs Gen.Tables Layout.Sem Layout.SpecTheory Layout.Spec Layout.Shapes Layout.Rows Layout.Transpose Proofs.C03Proof.
+From Peppi Require Import Base.Outcome Layout.Syntax Gen.Funs Gen.Tables Layout.Sem Layout.SpecTheory Layout.Spec Layout.Shapes Layout.Rows Layout.Transpose Proofs.C03Proof
+  Model.Parse Model.Recorder Model.View Proofs.C14Proof.
 Import ListNotations.
+Local Open Scope string_scope.
 
 (* closed obligations on the current source *)
 Lemma C14_tables :
@@ -27,6 +29,25 @@ Theorem C14_positional : forall (A : Type) (en : A -> bool) (l : list A) k,
   nth_error (filter en l) k = match nth_error l k with Some a => if en a then Some a else None | None => None end.
 Proof. intros A en l k. apply prefix_positional. Qed.
 
+(* totality and top-level schema of the export (hand model of Frame::into_struct_array, Model/View.v, per-struct parts through
+   the regenerated data_type tables): for EVERY version -- no upper bound needed --, EVERY non-empty port configuration and
+   EVERY parsed frame history the export succeeds (no empty StructArray, no missing column), with children id, ports,
+   start (>= 2.2), end (>= 3.7: the End record has no field before), item (>= 3.0) *)
+Theorem C14_export_total : forall v ports fs,
+  Forall (fun f => wf_frame v (layout_of v) (slots_of ports) f = true) fs -> ports <> [] ->
+  exists n kids,
+    arrow_frame v (frames_of v ports fs) = Ok (AStruct "frame" n None kids) /\ n = List.length fs /\
+    map child_name kids =
+      (["id"; "ports"] ++ (if vgte v 2 2 then ["start"] else []) ++ (if vgte v 3 0 && vgte v 3 7 then ["end"] else [])
+       ++ (if vgte v 3 0 then ["item"] else []))%list.
+Proof. exact c14_export_total. Qed.
+(* the closed checks on the regenerated data_type table this rests on *)
+Theorem C14_export_table_checks :
+  dt_ok = true /\ forallb first_ungated ["Pre"; "Post"; "Start"; "Item"] = true /\ end_first_gate = true.
+Proof. exact (conj dt_ok_true (conj first_ungated_all end_first_gate_true)). Qed.
+
 Print Assumptions C14_tables.
+Print Assumptions C14_export_total.
+Print Assumptions C14_export_table_checks.
 Print Assumptions C14_schema_is_spec.
 Print Assumptions C14_positional.
